@@ -24,6 +24,18 @@ CHECKS = {
  "C07": ("exploration", "bounded exhaustive enumeration of aggregate forms x bags x row orders x splits vs reference model",
    "45 grouping/aggregate/duplicate-elimination forms (DISTINCT, FILTER, HAVING, ROLLUP, CUBE, GROUPING(), UNION) x all bags of <=3 (quick) / <=4 (thorough) rows over a 9-value row domain x every row order x (partitions, batch size), against RM; every aggregate signature of the registry under reordered input and partition splits (homomorphism); many-group families crossing the hash directory capacities.",
    "Float accumulators compared with a relative tolerance; the schedule side of the homomorphism clause is C04's."),
+ "C08": ("exploration", "bounded exhaustive enumeration of sort inputs / limit-offset pairs with a sortedness+permutation oracle",
+   "All 65 536 values of SMALLINT and USMALLINT keys in three input arrangements x ASC/DESC x NULLS FIRST/LAST/default; the boundary alphabet of every sortable type under small batches and several partitions; all strings of length <=2/3 over a byte-order-sensitive alphabet with shared prefixes of 0/11/12/13/40 bytes; 3-key sorts with ties in all direction combinations; all (limit, offset) pairs around 0, the batch size and N, ordered / tied / unordered / in a derived table / optimizer off. Output must be a permutation (or the exact slice) of the input with every adjacent pair respecting RM's comparator.",
+   "RM comparator: NULLs largest by default, NaN above numbers, byte-wise strings; HALF is covered by its alphabet, not all 2^16 bit patterns."),
+ "C09": ("exploration", "bounded exhaustive enumeration of subquery forms x (outer, inner) databases vs per-outer-row reference evaluation",
+   "About 290 subquery forms (scalar / EXISTS / IN / ANY / ALL / LATERAL x WHERE / SELECT / CASE / HAVING x correlation through filter, projection, aggregates, LIMIT 1, DISTINCT, join, nested) x all pairs of bags with <=2 (quick) / <=3 (thorough) rows over {NULL,1,2}^2, optimizer on and off, against RM which evaluates the subquery once per outer row; 9 definitions x 8 uses rendered inline / CTE / MATERIALIZED / chained / view / view^3 must agree.",
+   "RM is the property's own definition (nested evaluation); views are created in a fresh engine per database because DROP VIEW is not implemented."),
+ "C12": ("exploration", "bounded exhaustive enumeration of operand pairs vs exact big-integer arithmetic",
+   "+,-,*,/,% on all 8 integer types (all 65 536 pairs for the 8-bit types in the thorough tier, boundary^2 otherwise), unary minus over the full 8/16-bit domains, decimal +,-,* over (p,s) x (p,s) x boundary values, SUM/AVG overflow bags; the exact result fitted into the announced type must be returned, otherwise the statement must fail with an error.",
+   "The engine-announced result type is taken as given; decimal division (Float64 result) is not asserted."),
+ "C13": ("exploration", "bounded exhaustive enumeration of (source type, target type, value) vs exact conversion model",
+   "All 289 pairs of 17 types (those for which CAST binds) x alphabets with conversion edge values, literal and column context; decimal rescale at every scale distance; text round trips incl. full-domain sweeps of the 8/16-bit types.",
+   "Rounding rules as stated in the property (float->int truncates, decimals half away from zero); float->decimal accepts either neighbour."),
 }
 
 def main():
